@@ -711,12 +711,21 @@ where
                         let old_hash = fg[0].file_hash.clone();
                         #[cfg(fclones_verif)]
                         let mut verif_sent = 0;
-                        if let Some(hash) = hash_fn((&mut fg[0].file_info, old_hash)) {
+                        // All paths of the run refer to the same file, so it is hashed only once.
+                        // If it cannot be read through one path (e.g. that link has just been
+                        // removed), only that path is left out and the next one is tried.
+                        let mut hashed = None;
+                        for (i, f) in fg.iter_mut().enumerate() {
+                            if let Some(hash) = hash_fn((&mut f.file_info, old_hash.clone())) {
+                                hashed = Some((i, hash, f.file_info.len));
+                                break;
+                            }
+                        }
+                        if let Some((first_readable, hash, len)) = hashed {
                             // The hash function may update the length (transformed data):
                             // all paths of the same file must carry the same length and hash,
                             // otherwise hard links would end up in a group of their own.
-                            let len = fg[0].file_info.len;
-                            for mut f in fg {
+                            for mut f in fg.into_iter().skip(first_readable) {
                                 f.file_info.len = len;
                                 f.file_hash = hash.clone();
                                 tx.send(f).unwrap();
